@@ -310,7 +310,7 @@ PARTS = {
     "kb": dict(
         component="kb", spec="MC_KBuckets.tla",
         mc={"quick": [], "thorough": []},       # per property, see PROPS
-        goals_cfg=None, goals=[("GoalApplyFilterDrop", "MC_KBuckets_goalip.cfg"), ("GoalPendingVsConnectedHead", "MC_KBuckets_goalhead.cfg"), ("GoalPendingVsIncomingLimit", "MC_KBuckets_goalinc.cfg"), ("GoalDisconnectedPendingApplied", "MC_KBuckets_goalpdis.cfg"), ("GoalPendingUpdateFiltered", "MC_KBuckets_goalipupd.cfg")],
+        goals_cfg=None, goals=[("GoalApplyFilterDrop", "MC_KBuckets_goalip.cfg"), ("GoalPendingVsConnectedHead", "MC_KBuckets_goalhead.cfg"), ("GoalPendingVsIncomingLimit", "MC_KBuckets_goalinc.cfg"), ("GoalDisconnectedPendingApplied", "MC_KBuckets_goalpdis.cfg"), ("GoalPendingUpdateFiltered", "MC_KBuckets_goalipupd.cfg"), ("GoalPendingReinserted", "MC_KBuckets_goalpre.cfg"), ("GoalPendingReinsertedFiltered", "MC_KBuckets_goalpreip.cfg")],
         sim={"quick": [dict(cfg="MC_KBuckets_sim.cfg", num=40, depth=40), dict(cfg="MC_KBuckets_simip.cfg", num=30, depth=48)],
              "thorough": [dict(cfg="MC_KBuckets_sim.cfg", num=600, depth=60), dict(cfg="MC_KBuckets_simip.cfg", num=400, depth=60)]},
         drive={"quick": 2500, "thorough": 60000},
